@@ -549,8 +549,10 @@ theorem session_cookie_grants_an_authenticator_token (h : List Event) (r : Req) 
   subst ht
   exact (sessions_come_from_authenticator_and_expire h s hmem).1
 
-/-- Reset (auth/reset) and expiry are final: a deleted session id is unknown afterwards, and an expired
-    session grants nothing and is not refreshed. -/
+/-- Reset (auth/reset) and expiry are final, one step: a deleted session id is unknown afterwards, and an
+    expired session grants nothing and is not refreshed (the state is returned untouched, so the next
+    presentation finds it expired again). The form over whole histories with repeated presentations is
+    `dead_session_stays_dead` / `expired_or_reset_session_never_grants_again` below. -/
 theorem logout_and_expiry_are_final (st : St) (r : Req) (id : Nat) (hc : r.cookie = some id) :
     checkSessionCookie (deleteSession st id) r = (deleteSession st id, none) ∧
     (∀ s, findSession st.sessions id = some s → st.now > s.validUntil → checkSessionCookie st r = (st, none)) := by
